@@ -56,6 +56,9 @@ type Sched struct {
 	// BlockedAfter is how long a released task may stay silent before it is
 	// considered blocked inside the code under test.
 	BlockedAfter time.Duration
+	// DeadlockAfter is how long the scheduler waits, once only blocked tasks
+	// remain, before it reports a deadlock.
+	DeadlockAfter time.Duration
 	// BlockedEvents counts how often a task was found blocked in the library.
 	BlockedEvents int
 	// Deadlocked is set when every unfinished task ended up blocked.
@@ -64,7 +67,7 @@ type Sched struct {
 }
 
 func New(pick func(n int) int) *Sched {
-	return &Sched{notify: make(chan int, 64), Pick: pick, BlockedAfter: 250 * time.Millisecond}
+	return &Sched{notify: make(chan int, 64), Pick: pick, BlockedAfter: 250 * time.Millisecond, DeadlockAfter: 20 * time.Second}
 }
 
 // Go registers a task. Must be called before Run.
@@ -264,9 +267,10 @@ func (s *Sched) Run() []any {
 			break
 		}
 		if len(parked) == 0 {
-			// only blocked tasks remain: give them one more period to wake up
-			// on their own, then call it a deadlock
-			if id, ok := s.recvNotify(s.BlockedAfter); ok {
+			// only blocked tasks remain. A task that was merely slow (a loaded
+			// machine) will still report; a deadlock stays silent. Wait long
+			// enough that slowness cannot be mistaken for one.
+			if id, ok := s.recvNotify(s.DeadlockAfter); ok {
 				s.noted(id)
 				continue
 			}
